@@ -336,6 +336,24 @@ func (c *Ctx) ruleListenerHarmless(rule string) {
 	if R.Listener.Type.Params != nil && len(R.Listener.Type.Params.List) == 1 && len(R.Listener.Type.Params.List[0].Names) == 1 {
 		param = info.ObjectOf(R.Listener.Type.Params.List[0].Names[0])
 	}
+	if param == nil {
+		// a callback without parameter (context.AfterFunc): the context it belongs to is a captured local of
+		// the spawner that is compared with the worker's current context
+		ast.Inspect(R.Listener.Body, func(n ast.Node) bool {
+			be, op := binOp2(n)
+			if be == nil || (op != token.EQL && op != token.NEQ) {
+				return true
+			}
+			for _, side := range [][2]ast.Expr{{be.X, be.Y}, {be.Y, be.X}} {
+				if selField(info, side[0]) == R.FCtx {
+					if o := rootIdent(info, side[1]); o != nil && isNamed(o.Type(), "context.Context") {
+						param = o
+					}
+				}
+			}
+			return true
+		})
+	}
 	stop := c.methodOf(R.WorkerT, "Stop")
 	sr := &seqRule{c: c, rule: rule}
 	sr.classify = func(fr *Frame, call *ast.CallExpr, ce *Callee, args []Value) *callEvent {
@@ -473,6 +491,8 @@ func runC15(c *Ctx) {
 	c.ruleRegisteredOnce("R15.1")
 	c.ruleStrategyTable("R15.2")
 	c.ruleCursor("R15.3")
+	c.Rep.rule("R15.6", "E2 path + status propagation", "the dispatcher step selects a queue only on paths that dequeue from it", 1)
+	c.ruleSelectionDequeues("R15.6")
 	c.ruleLenComparators("R15.4")
 	c.ruleBindingOrder("R15.5")
 }
@@ -501,6 +521,36 @@ func (c *Ctx) ruleRegisteredOnce(rule string) {
 		}
 		o := rootIdent(cs.In.Info(), cs.Call.Args[0])
 		c.Rep.check(o != nil && isParamOf(cs.In, o), rule, cs.In.Short(), "Register argument is not the queue being bound", c.P.pos(cs.Call), "Register(the queue parameter)", "what is registered with the worker must be the queue this function was given to bind")
+	}
+}
+
+// ruleSelectionDequeues: the dispatcher step selects a queue (which advances the round-robin cursor) only on
+// paths that go on to dequeue from it; backing out after the selection makes that queue lose its turn.
+func (c *Ctx) ruleSelectionDequeues(rule string) {
+	R := c.R
+	next := c.P.FuncByKey("queueManager.next")
+	if R.Step == nil || next == nil {
+		return
+	}
+	v := c.vocab([]string{"deq", "select", "qerr="}, nil)
+	sr := v.seq(rule, false)
+	base := sr.classify
+	sr.classify = func(fr *Frame, call *ast.CallExpr, ce *Callee, args []Value) *callEvent {
+		if ce.Key == next.Key {
+			return &callEvent{Name: "select", Atomic: true, Results: []Value{{Kind: VTok, S: "queue"}, {Kind: VTok, S: "qerr"}}}
+		}
+		return base(fr, call, ce, args)
+	}
+	sr.trackField = R.FStatus
+	for _, st := range []string{"Running", "Paused", "Stopped"} {
+		sr.init = kv("").set("T", c.workerStatus().ByName[st])
+		for _, sg := range sr.segments(R.Step) {
+			if sg.Kind != "path" || !sg.has("select") {
+				continue
+			}
+			c.Rep.check(sg.has("deq") || sg.has("qerr=nonnil"), rule, R.Step.Short(), "queue selected but not dequeued (status "+st+")", sg.End, "selection is followed by a dequeue from the selected queue",
+				"with the worker "+st+" the dispatcher step selects a queue (advancing the round-robin cursor) and then backs out without dequeuing from it: that queue silently loses its turn ["+strings.Join(sg.Syms, " ")+"]")
+		}
 	}
 }
 
@@ -868,4 +918,11 @@ func (c *Ctx) ruleBindingOrder(rule string) {
 
 func (c *Ctx) lockFactsReached(f *Func) bool {
 	return c.lockFacts().Reached[f.Root().Key]
+}
+
+func binOp2(n ast.Node) (*ast.BinaryExpr, token.Token) {
+	if e, ok := n.(ast.Expr); ok {
+		return binOp(e)
+	}
+	return nil, token.ILLEGAL
 }
